@@ -114,8 +114,8 @@ def run(ctx):
     hung_ex = s1.get("hung_example")
     gen_validated = 0
     if not quick:
-        # the event logs of the generated cases are judged by the trace spec as well (first 12 MB)
-        lines = open(gtrace).read(12 << 20).splitlines()[:-1]
+        # the event logs of the generated cases are judged by the trace spec as well (first 6 MB)
+        lines = open(gtrace).read(6 << 20).splitlines()[:-1]
         while lines and '"ev":"End"' not in lines[-1]:
             lines.pop()
         open(gtrace, "w").write("\n".join(lines) + "\n")
@@ -125,7 +125,7 @@ def run(ctx):
 
     lap("validate_generated")
     # impl -> spec
-    n = 1200 if quick else 12000
+    n = 1000 if quick else 6000
     tr = os.path.join(ctx.scratch, "random.ndjson")
     recs, _, _ = ctx.harness(binp, ["random", tr, "-seed", ctx.seed, "-n", n], timeout=1500)
     s2 = ctx.summary(recs)
@@ -185,7 +185,7 @@ def run(ctx):
                          % (hung, hung_ex))
     ctx.assumptions += ["the connection starts in plaintext; tls becomes TRUE only through STARTTLS (implicit TLS is covered by C05)",
                         "a line is 4 cut points in generated cases (text | text | CR | LF); random cases cut at arbitrary byte offsets",
-                        "a TLS handshake that does not complete within 1.5 s counts as failed (allowed whenever plaintext followed the switch)"]
+                        "a TLS handshake that does not complete within 2 s counts as failed (allowed whenever plaintext followed the switch)"]
     ctx.finish(rule="behaviour = (side, configuration, stream of lines, segmentation into writes, rendez-vous pattern); "
                "non-trivial = at least one plaintext byte follows the STARTTLS line / the tagged OK; generated cases are "
                "distinct by construction, random cases are drawn with replacement",
